@@ -19,6 +19,7 @@ type c17Case struct {
 	Amount    int     `json:"amount,omitempty"`
 	Seed      uint64  `json:"seed,omitempty"`
 	Seq       gen.Seq `json:"seq"`
+	Bytes     bool    `json:"bytes,omitempty"` // use the byte entry point (only when n is a multiple of 8)
 }
 
 var c17Allowed = map[string][]string{
@@ -124,6 +125,10 @@ func checkC17(c c17Case) (Outcome, error) {
 	}
 	a := t.Bits(x, c.Param)
 	bv := t.Bits(y, p2)
+	if c.Bytes && n%8 == 0 {
+		a = t.Bytes(gen.Pack(x), c.Param)
+		bv = t.Bytes(gen.Pack(y), p2)
+	}
 	out := Outcome{NonTrivial: !same && nontrivialP(a[0]), Classes: []string{"test:" + t.Key, "transform:" + c.Transform, "family:" + c.Seq.Family}}
 	want := a
 	if flipQ {
@@ -170,6 +175,10 @@ func genC17(t *rapid.T) c17Case {
 			n = 3*m + rapid.IntRange(0, m-1).Draw(t, "tail")
 		}
 	}
+	if rapid.IntRange(0, 2).Draw(t, "bytes") == 0 {
+		c.Bytes = true
+		n = (n + 7) / 8 * 8 // round UP: rounding down took n = 100 to 96, below the runs-distribution minimum (my false alarm, see DESIGN section 10)
+	}
 	c.Seq = gen.DrawSeq(t, n, nil)
 	if c.Transform == "rotate" {
 		c.Amount = rapid.SampledFrom([]int{1, n - 1, n / 2, rapid.IntRange(0, n).Draw(t, "rot")}).Draw(t, "amount")
@@ -193,6 +202,9 @@ func TestC17Sweep(t *testing.T) {
 					}
 					if k%parts == part {
 						cases = append(cases, c17Case{Test: td.Idx, Param: p, Transform: tr, Amount: n/3 + 1, Seed: uint64(k), Seq: gen.Seq{Family: "uniform", N: n, Seed: uint64(k + 1)}})
+						if n > 100000 {
+							cases = append(cases, c17Case{Test: td.Idx, Param: p, Transform: tr, Amount: n/3 + 1, Seed: uint64(k), Bytes: true, Seq: gen.Seq{Family: "uniform", N: 1000000, Seed: uint64(k + 2)}})
+						}
 					}
 					k++
 				}
